@@ -8,7 +8,8 @@
    it - use it or fall back to the linear scan, build remap, look a message
    up - is modelled.  The model follows the repaired code (fix: commits for
    D3, D20, D23, the unsigned 256-entry letter table, the default handler on
-   every path); the pinned functions live in DispatchRegress.v.
+   every path, names with alternatives never hashed and their loc text taken
+   from the message); the pinned functions live in DispatchRegress.v.
    No proofs in this file. *)
 From Coq Require Import List ZArith Bool.
 From RtoscV Require Import Match.PatSpec Match.MatchModel.
@@ -110,9 +111,14 @@ Definition find_remap (hs : list Z) : list Z :=
 
 Record hashtab := { h_pos : list Z; h_assoc : list Z; h_remap : list Z }.
 
+(* a name that is a pattern: it holds an enumeration '#' or alternatives '{'
+   (fix "a port table whose names hold alternatives ... got a perfect hash",
+   fix "the linear scan ... appended the text of the port's name") *)
+Definition is_pattern (name : str) : bool := mem 35 name || mem 123 name.
+
 (* the decisions of generate_minimal_hash: None = pos stays empty = linear scan *)
 Definition tables_of (T : table) : option hashtab :=
-  if existsb (fun p => mem 35 (fst p)) (t_ports T) then None          (* a '#' name *)
+  if existsb (fun p => is_pattern (fst p)) (t_ports T) then None      (* a '#' or '{' name *)
   else if existsb (fun p => inner_slash (fst p)) (t_ports T) then None  (* fix D20 *)
   else match t_ports T, t_pos T with
        | [], _ => None
@@ -195,9 +201,9 @@ Fixpoint scan_loc (cb : callback) (tid : Z) (ports : list (str * bool)) (i : Z)
         match rtosc_match name m args with
         | Some (true, Some m_end) =>
             let st1 := if sub then st else inc_matches st in
-            let app := if mem 35 name then firstn (length m - length m_end) m else upto_colon name in
+            let app := if is_pattern name then firstn (length m - length m_end) m else upto_colon name in
             let st2 := match loc st1 with
-                       | Some l => set_loc st1 (Some (if mem 35 name then old ++ app else l ++ app))
+                       | Some l => set_loc st1 (Some (if is_pattern name then old ++ app else l ++ app))
                        | None => st1
                        end in
             restore old (set_obj (cb i m (set_port st2 (Some (tid, i)))) obj0)
